@@ -274,6 +274,20 @@ pub fn check_c07_inplace(u: &Universe, t: Triple, vars: &[Variant], ext: &str, l
     if li.variants().collect::<Vec<_>>() != li0.variants().collect::<Vec<_>>() {
         tviol(coll, l, "c07.variants", "maximize() touched the variants".into(), u, t, li0.to_string(), li.to_string());
     }
+    // the same identifier assembled with the raw constructor (variants sorted and unique as its
+    // contract asks; an empty list stored as Some([])): maximize assigns three fields, it does
+    // not rebuild the identifier
+    {
+        let mut sorted = vars.to_vec();
+        sorted.sort_unstable();
+        sorted.dedup();
+        let mut raw = LanguageIdentifier::from_raw_parts_unchecked(x.0, x.1, x.2, Some(sorted.clone().into_boxed_slice()));
+        let ch = raw.maximize();
+        let want = LanguageIdentifier::from_raw_parts_unchecked(li.language, li.script, li.region, Some(sorted.into_boxed_slice()));
+        if ch != changed || raw != want {
+            tviol(coll, l, "c07.variants", "maximize() touched the variant storage of an identifier built with from_raw_parts_unchecked".into(), u, t, format!("{} {:?}", changed, want), format!("{} {:?}", ch, raw));
+        }
+    }
     let mut again = li.clone();
     if again.maximize() && !(li.language.is_empty() || li.script.is_none() || li.region.is_none()) {
         tviol(coll, l, "c07.idempotent", "maximizing a maximized identifier reports a change".into(), u, t, "false".into(), format!("true -> {}", again));
@@ -440,6 +454,17 @@ pub fn check_c08_inplace(u: &Universe, t: Triple, vars: &[Variant], ext: &str, l
     }
     if li.variants().collect::<Vec<_>>() != li0.variants().collect::<Vec<_>>() {
         tviol(coll, l, "c08.variants", "minimize() touched the variants".into(), u, t, li0.to_string(), li.to_string());
+    }
+    {
+        let mut sorted = vars.to_vec();
+        sorted.sort_unstable();
+        sorted.dedup();
+        let mut raw = LanguageIdentifier::from_raw_parts_unchecked(x.0, x.1, x.2, Some(sorted.clone().into_boxed_slice()));
+        let ch = raw.minimize();
+        let want = LanguageIdentifier::from_raw_parts_unchecked(li.language, li.script, li.region, Some(sorted.into_boxed_slice()));
+        if ch != changed || raw != want {
+            tviol(coll, l, "c08.variants", "minimize() touched the variant storage of an identifier built with from_raw_parts_unchecked".into(), u, t, format!("{} {:?}", changed, want), format!("{} {:?}", ch, raw));
+        }
     }
     // minimize(maximize(x)) == minimize(x) through the in-place API
     let mut a = li0.clone();
